@@ -35,7 +35,7 @@ ASSUMPTIONS = [
     "an explicit ValueError/TypeError/NotImplementedError when deriving or storing is a refusal, not a violation of C10",
 ]
 NSHARDS = {"quick": 16, "thorough": 32}
-PER_SHARD = {"quick": 28, "thorough": 400}
+PER_SHARD = {"quick": 28, "thorough": 120}
 
 
 def shards(tier, seed):
@@ -348,9 +348,9 @@ def finalize(tier, merged):
     return {
         "rule": RULE,
         "floors": [
-            ("history steps executed and checked", c.get("steps", 0), 2500 if tier == "quick" else 60000),
-            ("store/to_zarr calls inside histories", c.get("store_calls", 0), 400 if tier == "quick" else 9000),
-            ("stores of arrays that other pool members depend on", c.get("stores_of_arrays_with_dependents", 0), 100 if tier == "quick" else 2500),
+            ("history steps executed and checked", c.get("steps", 0), 2500 if tier == "quick" else 40000),
+            ("store/to_zarr calls inside histories", c.get("store_calls", 0), 400 if tier == "quick" else 6000),
+            ("stores of arrays that other pool members depend on", c.get("stores_of_arrays_with_dependents", 0), 100 if tier == "quick" else 1500),
         ],
         "assumptions": ASSUMPTIONS,
     }
